@@ -13,7 +13,7 @@ import z3
 
 from symx.core import Sym, Ctx, symarray, qval
 from symx.report import fl, concretiser
-from symx.xh import crosshair_obligation, replay_counterexample
+from symx.xh import crosshair_obligation, replay_counterexample, real_hvsrpy
 from harness import pipeline as PP
 from harness import C01
 
@@ -111,7 +111,8 @@ def replay(spec):
             r["detail"] = f"roundtrip{args}: class index {args[0]}, method alias index {args[1]}, via_reader={args[3]}: class or attribute content differs after save/load"
         return r
     if spec["kind"] == "process_equal":
-        import hvsrpy, tempfile, os
+        import tempfile, os
+        real_hvsrpy()
         hv, P, T, saved = C01._patched({"nfft": 4, "taper": {}})
         try:
             fcs, bws = C01.CFG[4]
